@@ -779,10 +779,14 @@ def run(ctx):
     # ---- meanwhile: backend/optimiser agreement on the original models, in this process ----
     for k in sorted(bases):
         j = jobs[k]
-        if (j['backend'], j['optimizer']) != ('numpy', 'scipy'):
-            continue
         ws, mu_test = gen_case(core.random.Random(j['seed']))
         base = bases[k]['base']
+        if (j['backend'], j['optimizer']) != ('numpy', 'scipy'):
+            try:
+                base = infer(ws, mu_test)
+            except Exception as e:
+                ctx.notes.append('inference under numpy/scipy failed (%s): comparison skipped' % core.exc_enum(e))
+                continue
         for be, opt in (extra[(k + ctx.seed) % len(extra):][:1] if ctx.quick else extra):
             key = '%s-%s' % (be, opt)
             try:
